@@ -191,16 +191,17 @@ def run_selftest(ctx):
         if r["kind"] != "rule" or json.dumps(r["rule"], sort_keys=True) in seen:
             continue
         seen.add(json.dumps(r["rule"], sort_keys=True))
-        if V.add_params(ctx, r, len(rrecs), ["rule", "tau"], nvars=len(r["rule"]["vars"]), size=V.tree_size(r["rule"])) is None:
+        if V.add_params(ctx, r, len(rrecs), ["rule", "tau", "nat"], nvars=len(r["rule"]["vars"]), size=V.tree_size(r["rule"])) is None:
             rrecs.append(r)
     vs = V.tlc_validate(ctx, "TraceSem", rrecs, {"VERIF_PROP": "SELF"})
-    for chk in ("SELF.reference_translation_vs_reference_semantics", "SELF.anthem_vs_reference_translation"):
+    for chk in ("SELF.reference_translation_vs_reference_semantics", "SELF.anthem_vs_reference_translation", "SELF.reference_natural_vs_reference_semantics",
+                "SELF.anthem_vs_reference_natural", "SELF.natural_defined_iff_regular"):
         sel = [v for v in vs if v["check"] == chk]
         bad = [v for v in sel if v["v"] == "DISAGREE"]
         log(f"  {chk}: {len(sel)} rules, {sum(v['n'] for v in sel)} evaluations, {sum(v['ident'] for v in sel)} identical groundings, {len(bad)} disagreements")
         for v in bad[:5]:
             log("   ", v["id"], next((r["text"] for r in rrecs if r["id"] == v["id"]), ""), V.wit_str(v))
-        expect(chk.replace("SELF.", "").replace("_", " "), len(sel) >= 150 and not bad)
+        expect(chk.replace("SELF.", "").replace("_", " "), len(sel) >= 100 and not bad)
     # the same for gamma
     gcases = V.tlc_generate(ctx, "formula", 120, 2) + [{"id": f"ge{i}", "f": f} for i, f in enumerate(
         ["p(X) -> not q(X)", "forall X (p(X) <-> q(X) or r)", "(p(1) <- q(1)) <- r", "not not p(1) -> p(1)", "exists X (p(X) and not forall Y (t(X, Y) -> q(Y)))"])]
